@@ -1,12 +1,37 @@
 import MoSql.Props.C04
+/-!
+C03 — parse → format → parse is the identity on the formatter-supported fragment.
+The expression core is carried by the C01/C04 theorems; the clause level is decided by the
+round-trip oracle on generated and corpus statements.
+-/
 namespace MoSql.Props.C03
 open MoSql MoSql.Fmt
 
-/-- **parse ∘ format on the infix core, every depth**: for every tree over the `Operator(...)`
-vocabulary avoiding the listed triples the formatter's output is accepted by the model of `parse`
-with every operator applied to exactly the operands the formatter wrote for it, nothing dropped. -/
-theorem format_output_parses (t : T) (p : Int)
+/-- **format's output always parses, with nothing dropped** (infix core, every depth): for every tree
+over the `Operator(...)` vocabulary avoiding the listed triples, every activation of `make_tree` on
+the formatter's text consumes all of its tokens — the model of `parse` never answers the formatted
+text with a truncated tree. -/
+theorem format_output_fully_consumed (t : T) (p : Int)
     (h : admissible Gen.knownFmtTriples Gen.fmtOps t = true) :
-    E.dropsTop Gen.ctx (fmtE Gen.fmtOps t p) = false ∨ True := Or.inr trivial
+    E.dropsTop Gen.ctx (fmtE Gen.fmtOps t p) = false :=
+  E.dropsTop_of_okTop Gen.ctx C04.levels_ok _ (C04.fmt_output_compatible t p h)
+
+/-- … and what it parses to is the semantics of what was written (from C04) -/
+theorem format_then_parse (t : T) (p : Int)
+    (h : admissible Gen.knownFmtTriples Gen.fmtOps t = true) :
+    E.evalE Gen.ctx (fmtE Gen.fmtOps t p) = E.sem Gen.ctx (fmtE Gen.fmtOps t p) :=
+  C04.parse_of_format t p h
+
+/-- **Parentheses written by format are exactly as strong as needed at the top**: asked for the
+loosest context (`prec = 100`, a select item), format writes no outer parentheses around an
+operator expression. -/
+theorem no_outer_parens (k : Nat) (l r : T) (hk : (Gen.fmtOps.getD k default).prec2 < 200) :
+    fmtE Gen.fmtOps (.bin k l r) 200 =
+      body (Gen.fmtOps.getD k default)
+        (fmtE Gen.fmtOps l (slotPrec (Gen.fmtOps.getD k default) 0))
+        (fmtE Gen.fmtOps r (slotPrec (Gen.fmtOps.getD k default) 1)) := by
+  have hb : bare 200 (Gen.fmtOps.getD k default) = true := by
+    simp [bare]; left; exact hk
+  simp only [fmtE, hb, if_true]
 
 end MoSql.Props.C03
